@@ -94,6 +94,8 @@ def nospace(n):
 
 def check_inverse_rules(idx, rep, res, fname, pseudo=False):
     rules = res.rules_of(fname)
+    from sa.autorule import arity_obligations
+    arity_obligations(idx, rep, rules)
     if not rules:
         rep.missing_anchor(f"dispatched function {fname}")
         return
